@@ -87,6 +87,7 @@ func splitRecords(b []byte, dotu bool) ([]*Stat, error) {
 }
 
 func c15Exec(x *Ctx) {
+	c15Fid = 1
 	c := x.C
 	ms := uint32(c.cfg("msize"))
 	dotu := c.cfg("dotu") != 0
@@ -238,6 +239,19 @@ func c15Exec(x *Ctx) {
 						x.Violate("g4-too-small", "a directory read with count %d, smaller than the first entry (%d bytes), was answered with %d bytes instead of an error", small, sizes[0], len(r.M.Data))
 					}
 					x.Probe("count-too-small")
+					// the same as the very first read of a freshly opened fid, which must then list normally
+					if w := p.Call(&Msg{Type: Twalk, Tag: 20, Fid: 0, Newfid: 2, Wname: []string{"d"}}); w != nil && w.M != nil && w.M.Type == Rwalk {
+						if o := p.Call(&Msg{Type: Topen, Tag: 21, Fid: 2, Mode: 0}); o != nil && o.M != nil && o.M.Type == Ropen {
+							r := p.Call(&Msg{Type: Tread, Tag: 22, Fid: 2, Offset: 0, Count: uint32(small)})
+							if r == nil || r.M == nil || r.M.Type != Rerror {
+								x.Violate("g4-too-small", "the first read of a freshly opened directory fid, with count %d smaller than the first entry (%d bytes), was not answered with an error", small, sizes[0])
+							}
+							c15Fid = 2
+							c15List(x, p, func(int) int { return maxc }, want, "listing through a fid whose first read was refused as too small", dotu, -1)
+							c15Fid = 1
+							x.Probe("too-small-first-read-then-listing")
+						}
+					}
 					// the same in the middle of the listing: read up to entry k, then offer less than entry k needs
 					k := (sel / 7) % len(sizes)
 					prefix := 0
@@ -285,6 +299,9 @@ func c15Exec(x *Ctx) {
 
 // c15List reads the directory following the offset rule and checks every reply.
 // It returns the entry sizes in server order. stopAfter >= 0 stops after that many replies.
+// c15Fid is the directory fid c15List reads through.
+var c15Fid uint32 = 1
+
 func c15List(x *Ctx, p *ClntPeer, count func(i int) int, want map[string]bool, what string, dotu bool, stopAfter int) ([]int, bool) {
 	var sizes []int
 	var got []string
@@ -298,7 +315,7 @@ func c15List(x *Ctx, p *ClntPeer, count func(i int) int, want map[string]bool, w
 			return nil, false
 		}
 		cnt := count(i)
-		r := p.Call(&Msg{Type: Tread, Tag: uint16(100 + i%1000), Fid: 1, Offset: off, Count: uint32(cnt)})
+		r := p.Call(&Msg{Type: Tread, Tag: uint16(100 + i%1000), Fid: c15Fid, Offset: off, Count: uint32(cnt)})
 		if r == nil || r.M == nil {
 			x.Violate("g0-stalled", "%s: directory read got no reply", what)
 			return nil, false
